@@ -769,7 +769,57 @@ def _exit_guards(st):
         live = [a for a in x["arms"] if not diverges(a["body"])]
         if len(live) == 1 and len(x["arms"]) >= 2:
             g.append(("exitmatch", x["scrut"], live[0]["pat"], x.get("src")))
+    if not g:
+        g.extend(_deep_exits(x))
     return g
+
+
+def _deep_exits(st):
+    """a statement that leaves the block only on some nested path (`if a { if b { continue } .. }`): what follows it runs under
+    the negation of that path's conditions.  One ('exit', a && b, False) entry per leaving path; `?` is not a guard clause."""
+    out = []
+
+    def conj(cs):
+        c = cs[0]
+        for d in cs[1:]:
+            c = {"k": "Bin", "op": "&&", "sp": d.get("sp", "?"), "ty": "bool", "l": c, "r": d, "synthetic": True}
+        return c
+
+    def rec(n, conds, in_loop):
+        k = n["k"]
+        if k == "Closure":
+            return
+        if k in ("Ret",) or (k in ("Break", "Continue") and not in_loop):
+            if conds:
+                out.append(("exit", conj(conds), False))
+            return
+        if k == "Loop":
+            for _key, ch in children(n):
+                rec(ch, conds, True)
+            return
+        if k == "If":
+            rec(n["c"], conds, in_loop)
+            rec(n["t"], conds + [n["c"]], in_loop)
+            if "e" in n:
+                rec(n["e"], conds + [{"k": "Un", "op": "!", "sp": n["c"].get("sp", "?"), "ty": "bool", "e": n["c"], "synthetic": True}], in_loop)
+            return
+        if k == "Match":
+            if str(n.get("src", "")).startswith("TryDesugar") or n.get("src") == "ForLoopDesugar":
+                if n.get("src") == "ForLoopDesugar":
+                    for a in n["arms"]:
+                        rec(a["body"], conds, True)
+                return
+            rec(n["scrut"], conds, in_loop)
+            for a in n["arms"]:
+                c = {"k": "LetE", "sp": n.get("sp", "?"), "ty": "bool", "pat": a["pat"], "init": n["scrut"], "synthetic": True}
+                cs = conds + [c] + ([a["guard"]] if a.get("guard") is not None else [])
+                rec(a["body"], cs, in_loop)
+            return
+        for _key, ch in children(n):
+            if ch["k"] not in PAT_KINDS:
+                rec(ch, conds, in_loop)
+    rec(st, [], False)
+    return out[:4]
 
 
 def with_exits(gs, after_loop=False):
